@@ -245,8 +245,8 @@ class Pololu_Maestro(QMI_Instrument):
     def close(self) -> None:
         self._check_is_open()
         _logger.info("Closing connection to %s", self._name)
-        self._transport.close()
         super().close()
+        self._transport.close()
 
     @rpc_method
     def get_idn(self) -> QMI_InstrumentIdentification:
